@@ -133,6 +133,15 @@ CHECKS = {
             'second bound: first fault absorbed by Coalesce / Or / Match default / Switch, second escapes; table of 20 glom-detected failures.',
             'Classification of converting vs pass-through sites as listed in the check; attributes beyond args are not asserted.',
             '3/C04'),
+    'C05': ('fault_enumeration',
+            'bounded exhaustive enumeration of spec terms with a failure planted at every leaf position (incl. recovered-branch-then-later-failure) x target kinds; the message is parsed and compared structurally with the failure spine of a reference interpreter',
+            'Every spec term of depth <= 2 (thorough: 3, pruned by representative per constructor/outcome) over dict, list, tuple, Pipe, Spec, Auto, And, Coalesce, Or, Switch and leaves '
+            'that succeed or fail in nine ways, plus terms that recover from an abandoned branch, x short / long (truncated) / non-ASCII targets. Decided: the trace starts with the root '
+            'target; the Spec lines follow the spine from the root spec to the innermost failing spec; a Target line shows what each spec received whenever the object changes; every attempted '
+            'branch of Coalesce / Or / Switch appears in order, each closed by the error that ended it; no stale line after a recovered branch; the last line is type and message of the original '
+            'error (never "<exception str() failed>").',
+            'Completed earlier chain steps and unchanged-target Target lines are optional; value renderings are matched up to the documented truncation; real traceback formatting is used (no stub).',
+            '3/C05'),
 }
 
 NOT_YET = {}
